@@ -288,7 +288,7 @@ def graph_argument(*arg_names, **options):
                         # only four objects so might as well check to be sure
                         nodes, edges = G
                         if all(isinstance(e, abc.Sequence) and len(e) == 2 and
-                               (v in nodes for v in e) for e in edges):
+                               all(v in nodes for v in e) for e in edges):
                             pass  # nodes, edges
                         else:
                             # edgelist
